@@ -59,6 +59,10 @@ func runC04(a *A) {
 	c04R4(a, r)
 	c04R5(a, r)
 	c04R6(a, r, ar)
+	// R7: nothing is lost between the socket and the parser
+	if rc := resolveRolesG(a, "C04-R0", "c"); rc != nil {
+		readerForwardsAll(a, "C04-R7", rc)
+	}
 }
 
 // R6: every accepted event reaches the dispatch. A way round the loop that does not pass the checksum stripping (the
